@@ -6,7 +6,13 @@ S2 end alignment: the encoder takes the first character from the directed bond w
    second mark; the ring-formation pass gives the first mark to the directed bond whose source is the ring's
    earlier (target) atom and the second to the reverse bond
 S3 marks are only printed for order 1 (both directions of a ring bond have the same order)
-Not applicable: the '@'/'@@' parity clause (value-level combinatorial fact, DESIGN.md §4 C04).
+S4 the encoder's inversion decision is the parity of the number of inversions of the out-bond permutation, for every
+   ordering of up to four neighbours (abstract interpretation of the counting code on symbolic lists, rules/chiral.py)
+S5 has_out_ring_bond means "the atom carries a ring bond": flag set for both ends where ring bonds are inserted and
+   nowhere else, or any() over all out-bonds
+S6 the parser gives each end of a ring-closure bond the mark written on its own ring digit
+Not decided: that the permutation handed to the parity test is the one the decoder's ring-first placement induces (the
+three-way partition and its sort key) -- a value-level combinatorial fact, DESIGN.md §4 C04.
 """
 import ast
 
@@ -27,10 +33,13 @@ META = {
                    "ring-formation pass are checked for giving the first mark to the bond whose source is the earlier atom.",
     "trusted_base": ["spec/tables.py ring table", "named field invariant STEREO_DOMAIN"],
     "assumptions": [],
-    "level_text": "Static labelled-dataflow check of mark transport on ring bonds through encoder and decoder; all inputs.",
-    "level_note": "Claims only the transport of '/' '\\' marks on ring-closure bonds. Tetrahedral parity (@/@@) and marks on chain "
-                  "bonds beyond the shared printer are not decided (listed as unclaimed).",
-    "technique": "symbolic path summaries + labelled dataflow (left/right roles) + constant folding of the ring table",
+    "level_text": "Static labelled-dataflow check of mark transport on ring bonds through parser, encoder and decoder; "
+                  "inversion-parity and ring-flag clauses of the tetrahedral rule; all inputs.",
+    "level_note": "Clause-level. Decides mark transport on ring-closure bonds (S1-S3, S6) and two necessary conditions of the "
+                  "@/@@ rule: the parity test is an inversion parity for all orderings of up to 4 neighbours (S4) and the "
+                  "ring-bond flag means what it says (S5). That the permutation itself matches the decoder's placement is "
+                  "not decided.",
+    "technique": "symbolic path summaries (abstract interpretation on symbolic lists) + labelled dataflow (left/right roles) + constant folding of the ring table",
 }
 
 
@@ -222,6 +231,10 @@ def run(ctx, rep):
            witness=None if len(orders) == 1 else "the two directions of a ring bond can have different orders", key="same-order")
     rep.floor("S1", 3)
     rep.floor("S2", 10)
+    from rules import chiral
+    chiral.check_parity(ctx, rep, "S4")
+    chiral.check_ring_flag(ctx, rep, "S5")
+    chiral.check_ring_closure_marks(ctx, rep, "S6")
 
 
 def _flatten(eng, v):
